@@ -68,10 +68,12 @@ package masswallet
 
 // the transaction that created a credit of the current wallet, with the block it is mined in.  Assumed from the
 // store's persisted data: the outpoint is an output of that transaction.
+//@ define walletClass(c) = (c == mathint(txscript.WitnessV0ScriptHashTy) || c == mathint(txscript.StakingScriptHashTy) || c == mathint(txscript.BindingScriptHashTy))
 //@ func (*WalletManager).existsMsgTx
 //@   trusted
 //@   requires w != nil && out != nil
 //@   ensures err == nil ==> mtx != nil && txWF(mtx) && meta != nil && int(out.Index) < len(mtx.TxOut)
+//@   ensures err == nil ==> walletClass(clsOf(mtx.TxOut[out.Index].PkScript))
 //@   ensures err != nil ==> mtx == nil && meta == nil
 
 // ---- C10: withdrawal inputs carry the sequence consensus requires; C19: no panic for any input list ----
@@ -109,3 +111,10 @@ package masswallet
 //@   modifies *
 //@   loop#1 invariant wmWF(w) && txWF(tx) && sameSlice(tx.TxIn, old(tx.TxIn)) && params != nil && cacheWF(cache) && cacheMeta != nil && cache != nil
 //@   loop#1 invariant forall qk_ string :: has(cache, qk_) ==> len(valAt[*wire.MsgTx](cache, qk_).TxOut) >= 1
+
+// size estimate over credits of the wallet (each resolves to a mined transaction of the store)
+//@ func (*WalletManager).estimateSignedSize
+//@   props C19
+//@   requires wmWF(w) && config.ChainParams != nil
+//@   requires forall qi_ int :: 0 <= qi_ && qi_ < len(utxos) ==> utxos[qi_] != nil
+//@   modifies rollbacks()
